@@ -143,6 +143,37 @@ def tdvp_case(ctx, idx, rng):
         ctx.close('repeated-call.energy', abs(float(np.real(np.vdot(v3, mH @ v3))) - E0), TOL * nH, 'energy drift on a repeated call', detail)
 
 
+def large_case(ctx, idx, rng):
+    """Conservation beyond the dense reach (L 8..14): norm and energy through transfer-matrix contractions."""
+    from .. import large
+    two = bool(idx % 2)
+    name, d, L, H = large.pick_large(rng)
+    psi = large.big_state(rng, H.qd, L, int(rng.choice([3, 6])), kind=str(rng.choice(['complex', 'real'])))
+    fn = ptn.integrate_local_twosite if two else ptn.integrate_local_singlesite
+    numiter = int(rng.choice([2, 5, 25]))
+    dt = 1j * float(rng.choice([-1, 1])) * float(rng.uniform(0.01, 0.2))
+    nsteps = int(rng.integers(1, 3))
+    n0 = large.norm_of(psi.A)
+    E0 = refs.mpo_element(psi.A, H.A, psi.A).real / n0 ** 2
+    Hs = max(large.tensor_scale(H.A), 1.0)
+    D_in = list(psi.bond_dims)
+    integ = 'twosite' if two else 'singlesite'
+    ctx.case(('large', integ, name, f'L{L}', f'numiter{numiter}'), sample={'integrator': integ, 'model': name, 'L': L, 'bond_dims': D_in, 'dt': dt})
+    detail = {'integrator': integ, 'model': name, 'L': L, 'bond_dims': D_in, 'dt': dt, 'numiter': numiter, 'steps': nsteps}
+    dH = monitor.digest(H)
+    ret = fn(H, psi, dt, nsteps, numiter_lanczos=numiter)
+    ctx.ok('large.hamiltonian-untouched', monitor.digest(H) == dH, 'Hamiltonian modified', detail)
+    inv = refs.mps_invariant(psi)
+    if not ctx.ok('large.block-sparse-after', inv is None, str(inv), detail):
+        return
+    nH = float(np.sum([np.linalg.norm(w) for w in H.A]))
+    ctx.close('large.return==norm-of-input', abs(float(ret) - n0), 1e-9 * n0, 'return value', detail)
+    ctx.close('large.norm-conserved', abs(large.norm_of(psi.A) - 1), 1e-9, 'norm not conserved', detail)
+    ctx.close('large.energy-conserved', abs(refs.mpo_element(psi.A, H.A, psi.A).real - E0), 1e-9 * max(1.0, abs(E0), nH), 'energy not conserved', detail)
+    if not two:
+        ctx.ok('large.singlesite-bonds-do-not-grow', all(x <= y for x, y in zip(psi.bond_dims, D_in)), f'{D_in} -> {psi.bond_dims}', detail)
+
+
 def mutate_mpo_in_place(rng, H):
     """Changes the Hamiltonian held by the SAME MPO object: in-place rescaling of a tensor, in-place edit of a Hermitian on-site block,
     rebinding of a tensor, or a gauge change by the public orthonormalize(). Returns a label; H stays Hermitian."""
@@ -212,6 +243,7 @@ SPEC = {
                  'hamiltonian-untouched', 'singlesite.bond-dims-never-grow', 'trace.evolution-starts-from-normalised-input', 'trace.points-observed'],
     'workloads': [
         Workload('tdvp', tdvp_case, quick=520, thorough=48000),
+        Workload('large', large_case, quick=60, thorough=4000),
         Workload('quench', quench_case, quick=200, thorough=16000),
     ],
     'shards': {'quick': 4, 'thorough': 16},
